@@ -17,7 +17,9 @@
 (*    s, e   : clip start / end                     (rec: unused),          *)
 (*    src    : "rec" | "clip"  source array of resamp / spec,              *)
 (*    w, h   : window / hop                         (spec),                 *)
-(*    target : target samplerate                    (resamp)]               *)
+(*    target : target samplerate                    (resamp),               *)
+(*    pre    : rate of a preliminary resample of the same source (0: none), *)
+(*    hist, N2, base2 : history of the loads, see FileRow]                  *)
 (***************************************************************************)
 EXTENDS Lattice
 
@@ -31,7 +33,17 @@ ExactCo(c) == Pow2(Sr(c))      \* sample instants k/sr are exact doubles
 Exact(c)   == ExactIn(c) /\ ExactCo(c)
 
 \* the file: frame k (0-based) as a row of ch values, zero past the end of the file
-FileRow(k, ch, N) == [j \in 1..ch |-> IF k < N THEN k * ch + j ELSE 0]
+\* (a file of N frames whose values start at base: frame k, channel j holds base + k*ch + j)
+FileRow(k, ch, N, base) == [j \in 1..ch |-> IF k < N THEN base + k * ch + j ELSE 0]
+(***************************************************************************)
+(* History of a case: c.hist = "none" (one load), or a first load followed *)
+(* by "mutate" (the caller edits the returned arrays in place), "rewrite"  *)
+(* (the file at the same path is rewritten with other frame values) or     *)
+(* "rewrite_len" (... and another length), followed by a SECOND load, which*)
+(* is the one observed and judged.  A load must reflect the file as it is  *)
+(* at the time of the call: c.N2 frames, values from c.base2 (for "none"   *)
+(* and "mutate" these are c.N and 0).                                      *)
+(***************************************************************************)
 
 \* n = floor(num/den), stated declaratively (den > 0)
 IsFloor(n, num, den) == n * den <= num /\ num < (n + 1) * den
@@ -74,7 +86,7 @@ ClipReqI(c, n, t0, rows, d) ==
     /\ \E off \in 0..(OffNum(c) \div c.tden + 1) :
           /\ IsFloor(off, OffNum(c), c.tden)
           /\ t0 = off
-          /\ \A i \in 1..n : rows[i] = FileRow(off + i - 1, c.ch, c.N) /\ d[i] = i - 1
+          /\ \A i \in 1..n : rows[i] = FileRow(off + i - 1, c.ch, c.N2, c.base2) /\ d[i] = i - 1
 
 (***************************************************************************)
 (* Where an array must be produced at all.  load_recording / load_clip:    *)
@@ -169,7 +181,7 @@ AccOff(o) == AccInts(OffNum(o.in), o.in.tden, o.out.bs, ExactIn(o.in))
 AccLen(o) == AccInts(LenNum(o.in), o.in.tden, o.out.bd, ExactIn(o.in))
 
 ClipFramesAt(o, off) ==
-    \A i \in 1..Len(o.out.rows) : o.out.rows[i] = FileRow(off + i - 1, o.in.ch, o.in.N)
+    \A i \in 1..Len(o.out.rows) : o.out.rows[i] = FileRow(off + i - 1, o.in.ch, o.in.N2, o.in.base2)
 ClipTimesAt(o, off) ==
     LET a == o.out.axes[1]  sr == Sr(o.in)  ex == ExactCo(o.in) IN
     /\ a.n = Len(o.out.rows)
@@ -181,9 +193,13 @@ ClipSameAt(o, off) ==
 \* "Drift/..." clauses compare the code with the Impl transcription on exact units; the engine reports them as
 \* MODEL-DRIFT (the spec's Impl must be re-transcribed), never as a violation of the property
 \* an array that satisfied the axis clauses when it was produced must still satisfy them after later library calls
-SourceClauses == {"SourceUntouched/TimeIncreasing", "SourceUntouched/TimeStart", "SourceUntouched/TimeWithinStep"}
+\* SourceUntouched/*: the loaded array the operations were applied to; FirstResult/*: the result of the preliminary
+\* resample of a derived-twice case, looked at after the second operation
+SourceClauses == {"SourceUntouched/TimeIncreasing", "SourceUntouched/TimeStart", "SourceUntouched/TimeWithinStep",
+                  "FirstResult/TimeIncreasing", "FirstResult/TimeStart", "FirstResult/TimeWithinStep"}
+Reobs(r, role) == {x \in DOMAIN r.reobs : r.reobs[x].role = role}
 DriftClauses == {"Drift/SpecShape", "Drift/ResampleNum"}
-Clauses == {"Produced",
+Clauses == {"Produced", "RecFrames",
             "ClipLength", "ClipFrames", "ClipTimes", "ClipSameAsRecording", "ClipConsistent",
             "TimeIncreasing", "TimeStart", "TimeWithinStep",
             "FreqIncreasing", "FreqStart", "FreqWithinStep"} \cup SourceClauses \cup DriftClauses
@@ -195,6 +211,11 @@ Holds(cl, o) ==
         hasf == ok /\ Len(r.axes) >= 2
     IN
     CASE cl = "Produced"   -> MustProduceN(c, r.src_ok, r.src_n) => ok
+      \* load_recording returns the file's frames (implied: the clip [0, N/sr] is the file's frames and equals the
+      \* same frames of load_recording); bites in the history cases, where the file or an earlier result changed
+      [] cl = "RecFrames"  -> (c.kind = "rec" /\ ok) =>
+                                 /\ Len(r.rows) = c.N2
+                                 /\ \A i \in 1..Len(r.rows) : r.rows[i] = FileRow(i - 1, c.ch, c.N2, c.base2)
       [] cl = "ClipLength" -> isclip => r.n \in AccLen(o) /\ Len(r.rows) = r.n
       [] cl = "ClipFrames" -> isclip => \E off \in AccOff(o) : ClipFramesAt(o, off)
       [] cl = "ClipTimes"  -> isclip => \E off \in AccOff(o) : ClipTimesAt(o, off)
@@ -209,14 +230,16 @@ Holds(cl, o) ==
       [] cl = "FreqIncreasing" -> hasf => AxisIncreasing(r.axes[2])
       [] cl = "FreqWithinStep" -> hasf => AxisWithin(r.axes[2])
       [] cl = "FreqStart"      -> hasf => StartsAtZero(r.axes[2])
-      [] cl = "SourceUntouched/TimeIncreasing" -> \A x \in DOMAIN r.reobs : AxisIncreasing(r.reobs[x])
-      [] cl = "SourceUntouched/TimeWithinStep" -> \A x \in DOMAIN r.reobs : AxisWithin(r.reobs[x])
+      [] cl = "SourceUntouched/TimeIncreasing" -> \A x \in Reobs(r, "source") : AxisIncreasing(r.reobs[x])
+      [] cl = "SourceUntouched/TimeWithinStep" -> \A x \in Reobs(r, "source") : AxisWithin(r.reobs[x])
       [] cl = "SourceUntouched/TimeStart" ->
-            \A x \in DOMAIN r.reobs :
+            \A x \in Reobs(r, "source") :
                LET a == r.reobs[x] IN
-               IF a.role = "derived" THEN StartsAtSource(a, c)
-               ELSE IF c.src = "rec" THEN StartsAtZero(a)
+               IF c.src = "rec" THEN StartsAtZero(a)
                ELSE a.n > 0 => \E off \in AccOff(o) : TimeIs(a.c0, off, Sr(c), ExactCo(c))
+      [] cl = "FirstResult/TimeIncreasing" -> \A x \in Reobs(r, "derived") : AxisIncreasing(r.reobs[x])
+      [] cl = "FirstResult/TimeWithinStep" -> \A x \in Reobs(r, "derived") : AxisWithin(r.reobs[x])
+      [] cl = "FirstResult/TimeStart"      -> \A x \in Reobs(r, "derived") : StartsAtSource(r.reobs[x], c)
       [] cl = "Drift/SpecShape" ->
             (c.kind = "spec" /\ Exact(c) /\ r.src_ok /\ r.src_n >= 1 /\ c.h <= c.w) =>
                IF ImplSpecRaises(c, r.src_n) THEN ~ok
